@@ -142,6 +142,11 @@ def composite_codec_encode_into_pdu(codec: CompositeCodec, physical_value: Optio
                 odxraise(f"Value for unknown parameter '{param_value_name}' specified "
                          f"for composite codec object {codec.short_name}")
 
+    # the composite codec object ends after the parameter which
+    # extends furthest into the PDU. (This is not necessarily the
+    # parameter that is specified last.)
+    end_byte_position = encode_state.cursor_byte_position
+
     for param in codec.parameters:
         if id(param) == id(codec.parameters[-1]):
             # The last parameter of the composite codec object is at
@@ -162,6 +167,7 @@ def composite_codec_encode_into_pdu(codec: CompositeCodec, physical_value: Optio
             # parameter in a post-processing step.
             param.encode_placeholder_into_pdu(
                 physical_value=physical_value.get(param.short_name), encode_state=encode_state)
+            end_byte_position = max(end_byte_position, encode_state.cursor_byte_position)
 
             continue
 
@@ -170,6 +176,7 @@ def composite_codec_encode_into_pdu(codec: CompositeCodec, physical_value: Optio
 
         param_phys_value = physical_value.get(param.short_name)
         param.encode_into_pdu(physical_value=param_phys_value, encode_state=encode_state)
+        end_byte_position = max(end_byte_position, encode_state.cursor_byte_position)
 
         encode_state.journal.append((param, param_phys_value))
 
@@ -186,6 +193,7 @@ def composite_codec_encode_into_pdu(codec: CompositeCodec, physical_value: Optio
         # Encode the value of the key parameter into the message
         param.encode_value_into_pdu(encode_state=encode_state)
 
+    encode_state.cursor_byte_position = end_byte_position
     encode_state.origin_byte_position = orig_origin
 
 
@@ -197,12 +205,20 @@ def composite_codec_decode_from_pdu(codec: CompositeCodec,
     orig_origin = decode_state.origin_byte_position
     decode_state.origin_byte_position = decode_state.cursor_byte_position
 
+    # the composite codec object ends after the parameter which
+    # extends furthest into the PDU. (This is not necessarily the
+    # parameter that is specified last.)
+    end_byte_position = decode_state.cursor_byte_position
+
     result = {}
     for param in codec.parameters:
         value = param.decode_from_pdu(decode_state)
+        end_byte_position = max(end_byte_position, decode_state.cursor_byte_position)
 
         decode_state.journal.append((param, value))
         result[param.short_name] = value
+
+    decode_state.cursor_byte_position = end_byte_position
 
     # decoding of the composite codec object finished. go back the
     # original origin.
